@@ -72,6 +72,11 @@ type CrashCase struct {
 	TornPermille  int    `json:"torn_permille"`  // temp file cut to this share (1000 = untouched)
 	LimitPermille int    `json:"limit_permille"` // fsize: limit = docs file size * this / 1000
 	Rounds        int    `json:"rounds"`         // faulty seal attempts before the clean one
+	// Flip: after the first faulty round the operator restarts the store with the sorted-docs
+	// rewriting switched the other way (e.g. off, to save the space the sort needs) and leaves it so
+	Flip bool `json:"flip,omitempty"`
+	// Point2: crash point of the second faulty round when it differs from the first
+	Point2 *Point `json:"point2,omitempty"`
 }
 
 func genCrash(t *rapid.T) CrashCase {
@@ -85,12 +90,17 @@ func genCrash(t *rapid.T) CrashCase {
 	c.Opts = harness.StoreOpts{SkipSortDocs: rapid.Bool().Draw(t, "skipsort"), KeepMetaFile: rapid.IntRange(0, 3).Draw(t, "keepmeta") == 3, DocBlockSize: rapid.SampledFrom([]int{0, 256}).Draw(t, "docblock")}
 	c.Fsync = rapid.IntRange(0, 3).Draw(t, "fsync") == 3
 	c.Rounds = rapid.IntRange(1, 2).Draw(t, "rounds")
+	c.Flip = rapid.IntRange(0, 3).Draw(t, "flip") == 3
 	if rapid.IntRange(0, 3).Draw(t, "mode") == 3 {
 		c.Mode = "fsize"
 		c.LimitPermille = rapid.IntRange(1, 3000).Draw(t, "limit")
 	} else {
 		c.Mode = "crash"
 		c.Point = rapid.SampledFrom(sealPoints).Draw(t, "point")
+		if c.Rounds == 2 && rapid.Bool().Draw(t, "otherpoint") {
+			p2 := rapid.SampledFrom(sealPoints).Draw(t, "point2")
+			c.Point2 = &p2
+		}
 		c.TornPermille = rapid.SampledFrom([]int{1000, 0, 1, 500, 999, 250}).Draw(t, "torn")
 		if c.TornPermille == 250 {
 			c.TornPermille = rapid.IntRange(1, 999).Draw(t, "tornpm")
@@ -154,7 +164,11 @@ func runCrash(c CrashCase) (evid.Result, error) {
 		}
 		switch c.Mode {
 		case "crash":
-			if _, err := p.Do(harness.PCmd{Op: "arm", Point: c.Point.Name, Arg: c.Point.Arg, N: 1}); err != nil {
+			pt := c.Point
+			if round > 0 && c.Point2 != nil {
+				pt = *c.Point2
+			}
+			if _, err := p.Do(harness.PCmd{Op: "arm", Point: pt.Name, Arg: pt.Arg, N: 1}); err != nil {
 				return res, err
 			}
 		case "fsize":
@@ -209,6 +223,10 @@ func runCrash(c CrashCase) (evid.Result, error) {
 			res.Labels = append(res.Labels, "seal-failed-on-EFBIG")
 			faultLanded = true
 		}
+		if c.Flip && round == 0 {
+			c.Opts.SkipSortDocs = !c.Opts.SkipSortDocs
+			res.Labels = append(res.Labels, "sort-docs-flag-flipped-after-the-fault")
+		}
 		if err := open(fmt.Sprintf("restart after fault (round %d)", round)); err != nil {
 			return res, err
 		}
@@ -227,6 +245,15 @@ func runCrash(c CrashCase) (evid.Result, error) {
 	}
 	if err := open("final restart"); err != nil {
 		return res, err
+	}
+	if c.Flip {
+		// once more: the loader decides again from the files the previous start left
+		if err := p.StopGraceful(); err != nil {
+			return res, evid.Failf("stop-failed", "%v", err)
+		}
+		if err := open("second restart after the clean seal"); err != nil {
+			return res, err
+		}
 	}
 	// nothing of the seal's scratch files may survive a clean seal + restart
 	fl, err := p.Do(harness.PCmd{Op: "files", Dir: dir})
